@@ -307,10 +307,12 @@ Definition set_hdrs (q : req) (h : hdrs) : req :=
 (* the request KeysFromRequest sees: rule.OverrideOnRequest on a clone *)
 Definition key_uri (r : rule) (q : req) : str :=
   let u := parse_url (q_url q) in
-  match attempt_match r (u_scheme u) (u_host u) (url_request_uri u) with
-  | Some dest => url_request_uri (parse_url dest)
-  | None => url_request_uri u
-  end.
+  let u' := match attempt_match r (u_scheme u) (u_host u) (url_request_uri u) with
+            | Some dest => parse_url dest
+            | None => u
+            end in
+  (* the host of the destination / redirect target is part of the keyed request-target *)
+  u_host u' ++ url_request_uri u'.
 
 Definition s_uncacheable := bytes "uncacheable".
 Definition s_hit := bytes "hit".
@@ -568,11 +570,13 @@ Fixpoint caching_func (fuel : nat) (c : mcfg) (st : mstate) (q : req) (override_
                 if nonempty body then (disk_del d4 name', false)
                 else if reval then (fst (close_revalidated c d4 name' k' (ms_now st) None), false)
                 else (d4, false)
-              else if invalidated then (disk_del d4 name', false)
+              (* Delete removes the file the writer created: the ".tmp" next to an existing entry, which
+                 therefore stays, or the new file itself *)
+              else if invalidated then (d4, false)
               else
                 let size := Z.of_nat (length body) in
                 let sh := stored_headers c store_status store_hdrs in
-                if zero_size_rejected k' size store_status then (disk_del d4 name', false)
+                if zero_size_rejected k' size store_status then (d4, false)
                 else
                   let m := mkMeta (k_host k') (k_path k') (k_stored k') sh store_status
                                   (match redir_str with Some s => s | None => [] end)
